@@ -92,6 +92,10 @@ type Input struct {
 	// RngSeed seeds the scenario's own random choices (non-member paths, ...), so that a
 	// replay re-runs exactly the same steps
 	RngSeed int64 `json:"rng_seed"`
+	// SetHasher histories: DefaultFamily is installed with merklize.SetHasher BEFORE the merklizer is
+	// built (0 = Poseidon); SetAfter-1 is installed AFTER it is built and before any query (0 = none)
+	DefaultFamily int `json:"default_family,omitempty"`
+	SetAfter      int `json:"set_after,omitempty"`
 }
 
 type Scen struct {
@@ -99,6 +103,7 @@ type Scen struct {
 	Cfg     bool
 	Rc      *hashers.Recorder // configured hasher (recorded)
 	Rd      *hashers.Recorder // package default hasher while the scenario runs (recorded + counted)
+	Rd2     *hashers.Recorder // package default hasher installed after the merklizer was built (or nil)
 	DefCnt  *Counting
 	Entries []mzrun.EntryView
 	Mz      *merklize.Merklizer
@@ -247,7 +252,7 @@ func (e *Env) NewScen(in Input) *Scen {
 	fam := Families()
 	s := &Scen{In: in, Cfg: in.Cfg, Members: map[string]mzrun.EntryView{}}
 	s.Rc = hashers.NewRecorder(fam[in.Hasher])
-	s.DefCnt = &Counting{Inner: merklize.PoseidonHasher{}}
+	s.DefCnt = &Counting{Inner: fam[in.DefaultFamily]}
 	s.Rd = hashers.NewRecorder(s.DefCnt)
 	merklize.SetHasher(s.Rd)
 	opts := []merklize.MerklizeOption{merklize.WithDocumentLoader(e.Loader)}
@@ -331,6 +336,15 @@ func (e *Env) NewScen(in Input) *Scen {
 			e.Rep.Fail(e.Prop+"-entry-hasher", fmt.Sprintf("stored entry %v does not carry the configured hasher (value hasher set=%v)", v.Parts, vv.HasHasher), in)
 		}
 	}
+	// the application changes the package default AFTER the merklizer exists: the merklizer keeps the
+	// hasher it was built with
+	if in.SetAfter > 0 && !s.Cfg {
+		s.Rd2 = hashers.NewRecorder(fam[in.SetAfter-1])
+		merklize.SetHasher(s.Rd2)
+	}
+	if !s.Cfg && s.Mz.Hasher() != merklize.Hasher(s.Rd) {
+		e.Rep.Fail(e.Prop+"-hasher-fixed-at-construction", "Merklizer.Hasher() is not the package default hasher that was in force when the merklizer was built", in)
+	}
 	return s
 }
 
@@ -368,6 +382,76 @@ func (e *Env) primeCheck(s *Scen) {
 	}
 	if got := s.Rc.Inner.Prime(); got.Cmp(want) != 0 {
 		e.Rep.Fail(e.Prop+"-hasher-prime-mutated", fmt.Sprintf("the configured hasher's modulus changed from %v to %v while values were encoded", want, got), s.In)
+	}
+}
+
+// ArgSliceChecks: several Paths built from ONE argument slice that the caller keeps mutating
+// (NewPath / Options.NewPath / Append on an empty path), all built first, queried afterwards:
+// each Path must still denote what it was built from.
+func (e *Env) ArgSliceChecks(s *Scen, member []any) {
+	n := len(member)
+	if n == 0 {
+		return
+	}
+	type built struct {
+		p    merklize.Path
+		pk   int
+		want []any
+		fam  string
+	}
+	var bs []built
+	for api := 0; api < 3; api++ {
+		if api == 1 && (s.Cfg || s.Rd2 != nil) {
+			continue // package-level NewPath pins the default hasher: only comparable when that is the merklizer's
+		}
+		parts := clone(member)
+		mk := func(fam string) {
+			var p merklize.Path
+			var err error
+			switch api {
+			case 0:
+				p, err = s.opts().NewPath(parts...)
+			case 1:
+				p, err = merklize.NewPath(parts...)
+			default:
+				p, err = s.opts().NewPath()
+				if err == nil {
+					err = p.Append(parts...)
+				}
+			}
+			if err == nil {
+				pk := 0
+				if api == 1 {
+					pk = 1
+				}
+				bs = append(bs, built{p, pk, clone(parts), fam})
+			}
+		}
+		mk("arg-slice-member")
+		// siblings / absent variants written into the SAME slice
+		last := n - 1
+		switch x := parts[last].(type) {
+		case int:
+			for _, idx := range []int{x + 1, x + 50, x + 51} {
+				parts[last] = idx
+				mk("arg-slice-variant")
+			}
+		case string:
+			parts[last] = x + "-absent"
+			mk("arg-slice-variant")
+			parts[last] = 0
+			mk("arg-slice-variant")
+		}
+		parts[0] = "urn:overwritten"
+	}
+	in := map[string]any{"scenario": s.In, "path": member, "pk": 0, "family": "arg-slice"}
+	for _, b := range bs {
+		e.Rep.Count("path-arg-slice")
+		if fmt.Sprintf("%#v", b.p.Parts()) != fmt.Sprintf("%#v", b.want) {
+			e.Rep.Fail(e.Prop+"-path-arg-aliasing", fmt.Sprintf("a Path built from %v reads %v after the caller reused its argument slice", b.want, b.p.Parts()), in)
+			continue
+		}
+		e.ProofPath(s, b.pk, b.p, b.fam)
 	}
 }
 
@@ -501,6 +585,13 @@ func (e *Env) ProofPath(s *Scen, pk int, p merklize.Path, family string) {
 		return
 	}
 	mem, isMember := s.Members[key.String()]
+	// a path of a stored entry built through the merklizer's own options (or, while the package
+	// default is still the hasher the merklizer was built with, by the package constructor) must
+	// hash to the entry's key
+	if (family == "member" || family == "shared-member" || family == "built" || family == "arg-slice-member") &&
+		!isMember && (pk != 1 || (s.Rd2 == nil && !s.Cfg)) {
+		e.Rep.Fail(e.Prop+"-member-key", fmt.Sprintf("path %v of a stored entry (api %d) does not hash to the key the entry is stored under", parts, pk), in)
+	}
 	if perr != nil && !isMember && s.Foreign[key.String()] {
 		// the shared tree holds this key for somebody else: Proof reports its assertion error
 		e.Rep.Count("foreign-key-error")
@@ -820,6 +911,11 @@ func (s *Scen) Coq(f *coqgen.File, id int) string {
 		for _, fn := range s.steps {
 			steps = append(steps, fn(f))
 		}
+	}
+	if s.Rd2 != nil {
+		return fmt.Sprintf("mkh %d\n %s\n %s\n %s\n %s\n [%s]\n %s\n [%s]", id,
+			RhCoq(s.Rd, f), RhCoq(s.Rd2, f), tabCoq(s.HL), tabCoq(s.HM),
+			strings.Join(es, ";\n  "), mo, strings.Join(steps, ";\n  "))
 	}
 	if s.In.DSLevel {
 		return fmt.Sprintf("mkd %d %s\n %s\n %s\n %s\n %s\n (%s)\n %s\n %s\n [%s]", id, coqgen.Bool(s.Cfg),
@@ -1179,6 +1275,7 @@ func (e *Env) c02Scenario(in Input) *Scen {
 		if len(v.Parts) <= 5 {
 			e.BuildChecks(s, v.Parts)
 		}
+		e.ArgSliceChecks(s, v.Parts)
 	}
 	// non-member families
 	nm := e.NonMembers(s, e.Cfg.Pick(2, 4))
@@ -1339,6 +1436,17 @@ func Run(cfg *common.Config) (*common.Report, error) {
 		in := Input{Doc: doc.Bytes, Ctx: ctxFor(doc.Bytes, all), Hasher: hi, Cfg: i%3 != 0, DSLevel: i%4 == 1, RngSeed: cfg.Rng.Int63()}
 		if !in.Cfg {
 			in.Hasher = 0
+			switch (i / 3) % 3 {
+			case 1: // the application selected its hasher with SetHasher before building
+				in.DefaultFamily = []int{1, 3, 5}[cfg.Rng.Intn(3)]
+			case 2: // ... or changes it after the merklizer exists
+				in.DefaultFamily = []int{0, 2}[cfg.Rng.Intn(2)]
+				in.SetAfter = 1 + []int{1, 5, 0}[cfg.Rng.Intn(3)]
+				if in.SetAfter-1 == in.DefaultFamily {
+					in.SetAfter = 2
+				}
+				in.DSLevel = false
+			}
 		}
 		for li, lf := range doc.Leaves {
 			if li < 5 {
@@ -1350,7 +1458,7 @@ func Run(cfg *common.Config) (*common.Report, error) {
 			rep.Count("feature:" + f)
 		}
 		s := e.c02Scenario(in)
-		if doc.Expect == "ok" && s.Out.Class != "ok" && in.Hasher < 4 {
+		if doc.Expect == "ok" && s.Out.Class != "ok" && in.Hasher < 4 && (in.Cfg || in.DefaultFamily < 4) {
 			rep.Fail("c02-valid-rejected", "valid document rejected: "+s.Out.Msg, in)
 		}
 		if s.Out.Class == "ok" && s.NoCoq == "" {
